@@ -17,7 +17,8 @@ pub uninterp spec fn next_op(vm: Vm) -> OpCode;
 pub assume_specification [Vm::read_opcode] (vm: &mut Vm) -> (r: Result<OpCode, Error>)
     ensures r matches Ok(op) ==> op == next_op(*old(vm)),
             final(vm).stack_spec() == old(vm).stack_spec(), final(vm).heap_spec() == old(vm).heap_spec(), final(vm).globenv_spec() == old(vm).globenv_spec(), final(vm).acc_spec() == old(vm).acc_spec(),
-            final(vm).regs().0 == old(vm).regs().0, final(vm).regs().2 == old(vm).regs().2;
+            final(vm).regs().0 == old(vm).regs().0, final(vm).regs().2 == old(vm).regs().2, final(vm).regs().1.0 == old(vm).regs().1.0,
+            r is Ok ==> final(vm).regs().1.1 == old(vm).regs().1.1 + 1;
 pub assume_specification [Vm::trace_instruction] (vm: &Vm);
 pub assume_specification [Vm::read_operand] (vm: &mut Vm) -> (r: Result<VCell, Error>);
 pub assume_specification [Vm::load_operand] (vm: &mut Vm) -> (r: Result<VCell, Error>);
@@ -34,8 +35,11 @@ pub assume_specification [Heap::get_as_cell] (h: &Heap, v: &VCell) -> (r: Cell);
 pub assume_specification [VCell::as_vector] (v: &VCell) -> (r: Result<&crate::vm::vector::Vector, Error>);
 pub assume_specification [VCell::as_lambda] (v: &VCell) -> (r: Result<&Lambda, Error>);
 pub assume_specification [VCell::as_lexical_env] (v: &VCell) -> (r: Result<&crate::vm::environment::LexicalEnvironment, Error>);
-pub assume_specification [VCell::as_ip] (v: &VCell) -> (r: Result<(usize, usize), Error>);
-pub assume_specification [VCell::as_ep] (v: &VCell) -> (r: Result<usize, Error>);
+/// one-line matches in vcell.rs
+pub assume_specification [VCell::as_ip] (v: &VCell) -> (r: Result<(usize, usize), Error>)
+    ensures *v matches VCell::InstructionPointer(a, b) ==> r == Ok::<(usize, usize), Error>((a, b)), !(*v is InstructionPointer) ==> r is Err;
+pub assume_specification [VCell::as_ep] (v: &VCell) -> (r: Result<usize, Error>)
+    ensures *v matches VCell::EnvironmentPointer(p) ==> r == Ok::<usize, Error>(p), !(*v is EnvironmentPointer) ==> r is Err;
 /// (checked by the Kani harness vcell_accessors on the real code)
 pub assume_specification [VCell::as_bp] (v: &VCell) -> (r: Result<usize, Error>)
     ensures *v matches VCell::BasePointer(p) ==> r == Ok::<usize, Error>(p), !(*v is BasePointer) ==> r is Err;
@@ -43,7 +47,10 @@ pub assume_specification [crate::vm::vector::Vector::push] (v: &crate::vm::vecto
 pub assume_specification [Vm::build_closure_environment] (vm: &Vm, envmap: &crate::vm::environment::EnvironmentMap) -> (r: Result<crate::vm::environment::LexicalEnvironment, Error>);
 pub assume_specification [Vm::build_lexical_environment] (vm: &Vm, lambda: &Lambda, p: usize, e: &crate::vm::environment::LexicalEnvironment) -> (r: Result<crate::vm::environment::LexicalEnvironment, Error>);
 pub assume_specification [crate::vm::vcell::BuiltInProc::eval] (p: &crate::vm::vcell::BuiltInProc, vm: &mut Vm) -> (r: Result<VCell, Error>);
-pub assume_specification [Vm::lambda] (vm: &Vm) -> (r: &Lambda);
+/// the code object %ip points into: determined by the heap and %ip.0
+pub uninterp spec fn lambda_at(h: Heap, ip0: usize) -> Lambda;
+pub open spec fn cur_lambda(vm: Vm) -> Lambda { lambda_at(vm.heap_spec(), vm.regs().1.0) }
+pub assume_specification [Vm::lambda] (vm: &Vm) -> (r: &Lambda) ensures *r == cur_lambda(*vm);
 /// Vm::pop: the popped cell read through the heap (run.rs: `self.heap.get(self.stack.pop()?)`)
 pub assume_specification [Vm::pop] (vm: &mut Vm) -> (r: Result<VCell, Error>)
     ensures r matches Ok(c) ==> c == heap_deref(old(vm).heap_spec(), old(vm).stack_spec().cells()[old(vm).stack_spec().sp_spec() as int]);
@@ -72,6 +79,9 @@ pub open spec fn tcall_frame(vm: Vm) -> bool {
     &&& (argc_at(s, sp) matches Some(n) ==> bp + 5 + n <= sp)
     &&& (argc_at(s, bp + 1) matches Some(m) ==> m <= bp)
 }
+/// the two argument counts TCALL reads: the new call's (top of stack) and the running frame's (bp + 1); 0 if the slot holds something else
+pub open spec fn tc_n(vm: Vm) -> int { match argc_at(vm.stack_spec(), vm.stack_spec().sp_spec() as int) { Some(n) => n as int, None => 0 } }
+pub open spec fn tc_m(vm: Vm) -> int { match argc_at(vm.stack_spec(), vm.regs().2 + 1) { Some(m) => m as int, None => 0 } }
 /// slots lo..hi of s hold what slots src_lo.. of s0 held
 pub open spec fn copied(s0: Stack, s: Stack, lo: int, hi: int, src_lo: int) -> bool {
     forall|j: int| lo <= j < hi ==> #[trigger] s.cells()[j] == s0.cells()[src_lo + (j - lo)]
@@ -95,11 +105,69 @@ pub open spec fn continuation_invoked(old: Vm, new: Vm, c: crate::vm::continuati
     &&& new.stack_spec().wf() && new.stack_spec().live() == cont_stack(c).cells() && new.stack_spec().sp_spec() == cont_stack(c).sp_spec()
     &&& new.heap_spec() == old.heap_spec() && new.globenv_spec() == old.globenv_spec()
 }
+/// Layout when VARARG executes (first instruction of a variadic procedure, before ENTER): the caller's CALL / TCALL left
+///   [.. the n arguments | ArgumentCount(n) | saved %ep | saved %ip] with the saved %ip in slot sp.
+/// A variadic code object has at least the rest parameter among its formals.
+pub open spec fn vararg_frame(vm: Vm) -> bool {
+    let s = vm.stack_spec(); let sp = s.sp_spec() as int;
+    &&& cur_lambda(vm).args@.len() >= 1
+    &&& sp >= 2 && (argc_at(s, sp - 2) matches Some(n) ==> n + 3 <= sp)
+}
+/// what VARARG leaves when at least the required arguments were passed: the optional arguments are replaced by ONE slot (the rest
+/// list), so the frame has exactly req + 1 arguments whatever the caller passed; the saved registers are back on top in the same
+/// order; the required arguments and everything below are untouched
+pub open spec fn vararg_normalised(old: Vm, new: Vm) -> bool {
+    let s0 = old.stack_spec(); let s1 = new.stack_spec(); let sp = s0.sp_spec() as int; let req = cur_lambda(old).args@.len() - 1;
+    argc_at(s0, sp - 2) matches Some(n) && n >= req && {
+        let top = sp - n + req + 1;
+        &&& s1.wf() && s1.sp_spec() == top
+        &&& s1.cells()[top] == s0.cells()[sp] && s1.cells()[top - 1] == s0.cells()[sp - 1] && s1.cells()[top - 2] == VCell::ArgumentCount((req + 1) as usize)
+        &&& forall|j: int| 0 <= j < sp - 2 - n + req ==> #[trigger] s1.cells()[j] == s0.cells()[j]
+        &&& new.regs().0 == old.regs().0 && new.regs().2 == old.regs().2
+    }
+}
+/// what CALL to a procedure leaves: exactly two more slots, the caller's %ep and the return address (the instruction after the CALL)
+pub open spec fn frame_pushed(old: Vm, new: Vm) -> bool {
+    let s0 = old.stack_spec(); let s1 = new.stack_spec(); let sp = s0.sp_spec() as int;
+    &&& s1.wf() && s1.sp_spec() == sp + 2
+    &&& s1.cells()[sp + 1] == VCell::EnvironmentPointer(old.regs().0)
+    &&& s1.cells()[sp + 2] == VCell::InstructionPointer(old.regs().1.0, (old.regs().1.1 + 1) as usize)
+    &&& forall|j: int| 0 <= j <= sp ==> #[trigger] s1.cells()[j] == s0.cells()[j]
+    &&& new.regs().0 == old.regs().0 && new.regs().2 == old.regs().2 && new.heap_spec() == old.heap_spec()
+}
+/// what ENTER leaves (first instruction of a procedure body, after CALL / TCALL pushed argc, %ep, %ip): one more slot holding the
+/// caller's base pointer, and the new base pointer addresses the last argument (argc at bp + 1, %ep at bp + 2, %ip at bp + 3, saved %bp at bp + 4)
+pub open spec fn frame_entered(old: Vm, new: Vm) -> bool {
+    let s0 = old.stack_spec(); let s1 = new.stack_spec(); let sp = s0.sp_spec() as int;
+    &&& s1.wf() && s1.sp_spec() == sp + 1 && s1.cells()[sp + 1] == VCell::BasePointer(old.regs().2)
+    &&& new.regs().2 == sp - 3
+    &&& forall|j: int| 0 <= j <= sp ==> #[trigger] s1.cells()[j] == s0.cells()[j]
+}
+/// Layout when RET executes: bp + 1: ArgumentCount(m), bp + 2: saved %ep, bp + 3: saved %ip, bp + 4: saved %bp
+pub open spec fn ret_frame(vm: Vm) -> bool {
+    let s = vm.stack_spec(); let bp = vm.regs().2 as int;
+    &&& bp + 4 < s.cells().len() && (argc_at(s, bp + 1) matches Some(m) ==> m <= bp)
+}
+/// what RET leaves: the whole frame including its arguments is gone (sp = slot below the first argument), the three saved
+/// registers are the ones stored in the frame, no slot is written, heap and accumulator are untouched
+pub open spec fn frame_popped(old: Vm, new: Vm) -> bool {
+    let s0 = old.stack_spec(); let bp = old.regs().2 as int;
+    argc_at(s0, bp + 1) matches Some(m) && (s0.cells()[bp + 2] matches VCell::EnvironmentPointer(ep) && (s0.cells()[bp + 3] matches VCell::InstructionPointer(i0, i1)
+      && (s0.cells()[bp + 4] matches VCell::BasePointer(sbp) && {
+        &&& new.stack_spec().sp_spec() == bp - m && new.stack_spec().cells() == s0.cells()
+        &&& new.regs() == (ep, (i0, i1), sbp)
+        &&& new.heap_spec() == old.heap_spec() && new.acc_spec() == old.acc_spec()
+    })))
+}
 /// what the instruction requires of the machine: a well-formed stack that can still double; for TCALL the frame layout;
 /// for a continuation callee a well-formed capture no longer than the running stack (stacks never shrink: whole-history fact)
 pub open spec fn call_ready(vm: Vm) -> bool {
     &&& vm.stack_spec().wf() && vm.stack_spec().cells().len() <= i64::MAX / 4
     &&& (next_op(vm) is TCallAcc ==> tcall_frame(vm))
+    &&& (next_op(vm) is VarArg ==> vararg_frame(vm))
+    &&& (next_op(vm) is Ret ==> ret_frame(vm))
+    &&& (next_op(vm) is Enter ==> vm.stack_spec().sp_spec() >= 3)
+    &&& vm.regs().1.1 < usize::MAX
     &&& (callee_continuation(vm) matches Some(c) ==> cont_wf(c) && cont_stack(c).cells().len() <= vm.stack_spec().cells().len())
 }
 /// what TCALL to a procedure leaves: the frame is rebuilt in place from its first argument slot (base = bp - m + 1)
@@ -126,25 +194,33 @@ UNITS = [{
     'fns': {
         'impl Vm::run_one': {
             'props': P + ['C05'],
-            'attrs': '#[verifier::exec_allows_no_decreases_clause]\n#[verifier::loop_isolation(false)]',
-            'requires': ['next_op(*old(self)) is TCallAcc || next_op(*old(self)) is CallAcc', 'call_ready(*old(self))'],
+            'attrs': '#[verifier::exec_allows_no_decreases_clause]\n#[verifier::loop_isolation(false)]\n#[verifier::rlimit(80)]',
+            'requires': ['next_op(*old(self)) is TCallAcc || next_op(*old(self)) is CallAcc || next_op(*old(self)) is VarArg || next_op(*old(self)) is Ret || next_op(*old(self)) is Enter', 'call_ready(*old(self))'],
             'ensures': [(P, '(r is Ok && next_op(*old(self)) is TCallAcc && callee_is_procedure(*old(self))) ==> frame_replaced(*old(self), *final(self))'),
-                        (['C05'], 'r is Ok ==> (callee_continuation(*old(self)) matches Some(c) ==> continuation_invoked(*old(self), *final(self), c))')],
+                        (P, '(r is Ok && next_op(*old(self)) is CallAcc && callee_is_procedure(*old(self))) ==> frame_pushed(*old(self), *final(self))'),
+                        (P, '(r is Ok && next_op(*old(self)) is Enter) ==> frame_entered(*old(self), *final(self))'),
+                        (P, '(r is Ok && next_op(*old(self)) is Ret) ==> frame_popped(*old(self), *final(self))'),
+                        (P, '(r is Ok && next_op(*old(self)) is VarArg) ==> vararg_normalised(*old(self), *final(self))'),
+                        (['C05'], '(r is Ok && (next_op(*old(self)) is CallAcc || next_op(*old(self)) is TCallAcc)) ==> (callee_continuation(*old(self)) matches Some(c) ==> continuation_invoked(*old(self), *final(self), c))')],
             'body_start': 'proof { axiom_into_self(); axiom_cow_cell_ref(&old(self).acc_spec()); }',
             'loop_count': 3,
-            'loop_iter': {1: 'it1'},
+            'loop_iter': {0: 'it0', 1: 'it1', 2: 'it2'},
             'loops': {
+                2: '''invariant
+                    self.stack_spec().wf(), self.stack_spec().cells() == old(self).stack_spec().cells(),
+                    self.stack_spec().sp_spec() + 3 + it2.index@ == old(self).stack_spec().sp_spec(),
+                    self.regs().0 == old(self).regs().0, self.regs().2 == old(self).regs().2,''',
                 0: '''invariant
                     self.stack_spec().sp_spec() == old(self).stack_spec().sp_spec(), self.stack_spec().cells().len() == old(self).stack_spec().cells().len(),
                     self.regs().2 == old(self).regs().2, self.regs().0 == old(self).regs().0, self.heap_spec() == old(self).heap_spec(),
-                    copied(old(self).stack_spec(), self.stack_spec(), old(self).regs().2 - it + 1, old(self).regs().2 + 1, old(self).stack_spec().sp_spec() - it),
-                    same_outside(old(self).stack_spec(), self.stack_spec(), old(self).regs().2 - it + 1, old(self).regs().2 + 1),''',
+                    copied(old(self).stack_spec(), self.stack_spec(), old(self).regs().2 - it0.index@ + 1, old(self).regs().2 + 1, old(self).stack_spec().sp_spec() - it0.index@),
+                    same_outside(old(self).stack_spec(), self.stack_spec(), old(self).regs().2 - it0.index@ + 1, old(self).regs().2 + 1),''',
                 1: '''invariant
-                    self.stack_spec().wf(), self.stack_spec().sp_spec() == old(self).regs().2 - frame_argc + it1.index@,
+                    self.stack_spec().wf(), self.stack_spec().sp_spec() == old(self).regs().2 - tc_m(*old(self)) + it1.index@,
                     self.stack_spec().cells().len() == old(self).stack_spec().cells().len(),
                     self.regs().2 == old(self).regs().2, self.regs().0 == old(self).regs().0, self.heap_spec() == old(self).heap_spec(),
-                    copied(old(self).stack_spec(), self.stack_spec(), old(self).regs().2 - frame_argc + 1, old(self).regs().2 - frame_argc + 1 + it1.index@, saved_sp - argc),
-                    same_outside(old(self).stack_spec(), self.stack_spec(), old(self).regs().2 - frame_argc + 1, old(self).regs().2 - frame_argc + 1 + it1.index@),''',
+                    copied(old(self).stack_spec(), self.stack_spec(), old(self).regs().2 - tc_m(*old(self)) + 1, old(self).regs().2 - tc_m(*old(self)) + 1 + it1.index@, old(self).stack_spec().sp_spec() - tc_n(*old(self))),
+                    same_outside(old(self).stack_spec(), self.stack_spec(), old(self).regs().2 - tc_m(*old(self)) + 1, old(self).regs().2 - tc_m(*old(self)) + 1 + it1.index@),''',
             },
         },
     },
